@@ -115,7 +115,10 @@ pub fn run(ctx: &mut Ctx) {
         }
         "C05" => {
             use hvcore::rigapi::MemKind;
-            cfgs.retain(|c| matches!(c.mem, MemKind::Guard | MemKind::Heap));
+            let stack_only = std::env::args().collect::<Vec<_>>().windows(2).any(|w| w[0] == "--mem" && w[1] == "stack");
+            if !stack_only {
+                cfgs.retain(|c| matches!(c.mem, MemKind::Guard | MemKind::Heap));
+            }
             let growths: &[hvcore::guard::Growth] = if ctx.sampled && !thorough {
                 &[hvcore::guard::Growth::Exact]
             } else {
@@ -129,6 +132,9 @@ pub fn run(ctx: &mut Ctx) {
                 fam::exhaustive(ctx, &format!("range/{tag}"), &sub, l.min(5) - 1, false, &fam::range_ops);
                 fam::exhaustive(ctx, &format!("clone/{tag}"), &sub, 3, false, &fam::clone_ops);
                 fam::histories(ctx, &format!("mixed-hist/{tag}"), &sub, &hist(thorough, true, true, true, true));
+                // replacement iterators that misreport their length (the write loop and the tail move must stay in bounds)
+                let tracked: Vec<_> = sub.iter().filter(|c| c.core).cloned().collect();
+                fam::lying_enum(ctx, &format!("lying/{tag}"), &tracked, 3);
             }
             hvcore::guard::set_default_growth(hvcore::guard::Growth::Exact);
         }
